@@ -85,6 +85,68 @@ def eraseArgs (ix : Idx) : Ir.Exprs → Option IArgs
     | _, _ => none
 end
 
+/-! ## the front end reading the exporter's tree -/
+
+/-- name lookup in the exported program: identifier ↦ position of the variable, function name ↦ position of the function -/
+structure Names where
+  res : String → Option Nat
+  fres : String → Option Nat
+
+/-- suffix kind of an `ast::Literal` of the subset -/
+def litKindOf : HlslAst.Lit → RsslVerif.Gen.HlslGenTables.LitKind
+  | .bool _ => .Bool | .intUntyped _ => .IntUntyped | .intUnsigned32 _ => .IntUnsigned32
+  | .float32 _ => .Float32 | .floatUntyped _ => .FloatUntyped
+
+/-- the type a printed scalar type name denotes: inverse of `generate_scalar_type` through the re-extracted table
+    (`void` is the opaque non-numeric layer of `eraseTy`) -/
+def tyOfName (n : String) : Option Ty :=
+  if n = "void" then some ⟨{}, .other 0⟩ else
+  match RsslVerif.Gen.HlslGenTables.scalarTypeName.find? (fun p => p.2 == some n) with
+  | some (k, _) => (Scalar.ofName? k).map scalarTy
+  | none => none
+
+mutual
+/-- what `parse_expr_internal` sees of each `ast::Expression` node before any typing decision -/
+def readBack (nm : Names) : HlslAst.Expr → Option SExpr
+  | .lit l => (rereadTable (litKindOf l)).map .lit
+  | .ident s => (nm.res s).map .var
+  | .un op e =>
+    match UnOp.ofName? op.name, readBack nm e with
+    | some u, some e' => some (.un u e')
+    | _, _ => none
+  | .bin op a b =>
+    match BinOp.ofName? op.name, readBack nm a, readBack nm b with
+    | some o, some a', some b' => some (.bin o a' b')
+    | _, _, _ => none
+  | .tern c t f =>
+    match readBack nm c, readBack nm t, readBack nm f with
+    | some c', some t', some f' => some (.tern c' t' f')
+    | _, _, _ => none
+  | .cast ty e =>
+    match tyOfName ty, readBack nm e with
+    | some t, some e' => some (.cast t e')
+    | _, _ => none
+  | .call f args =>
+    match nm.fres f, readBackArgs nm args with
+    | some j, some as => some (.call j as)
+    | _, _ => none
+def readBackArgs (nm : Names) : HlslAst.Exprs → Option SArgs
+  | .nil => some .nil
+  | .cons e r =>
+    match readBack nm e, readBackArgs nm r with
+    | some e', some r' => some (.cons e' r')
+    | _, _ => none
+end
+
+/-- the exporter's names (`GenHlsl.Ctx`), the positions (`Idx`) and the lookup of the exported program (`Names`)
+    fit together: an emitted name is looked up to the entity it was emitted for (name hygiene: property C15), and in
+    the exported environment `Γ'` function `j` is the only function of its name, which we take to be `j`
+    (`Fixpoint.uniqueNames`) -/
+structure NamesAgree (cx : GenHlsl.Ctx) (ix : Idx) (nm : Names) (Γ' : Env) : Prop where
+  loc : ∀ id j, ix.var (.loc id) = some j → nm.res (cx.locName id) = some j
+  glob : ∀ id j, ix.var (.glob id) = some j → nm.res (cx.globName id) = some j
+  func : ∀ f j, ix.func f = some j → nm.fres (cx.funcName f) = some j ∧ ∃ sg, Γ'.funcs[j]? = some sg ∧ sg.name = j
+
 /-- the second-generation elaboration of one expression position: the exported tree is read back, elaborated by
     `parse_expr` and converted to the type the position requires (`ctx`: the variable's type for an initialiser, the
     return type for `return`; conditions and expression statements are not converted) -/
